@@ -173,14 +173,18 @@ theorem prog_local (isInput outs : P → Prop) (W : Work L Z R) (r : Routine) (a
     cases c <;> simp only [prog, zoneArg, hz] <;>
     · apply local_loadPdb isInput outs _ _ ha.ref
       intro rc
-      apply local_checked isInput outs W _ _ _ _ _ (hrd _ (by simp [Rd.path])) (hrd _ (by simp [Rd.path]))
-      intro obs res; exact local_finish isInput outs res
+      split
+      · trivial
+      · apply local_checked isInput outs W _ _ _ _ _ (hrd _ (by simp [Rd.path])) (hrd _ (by simp [Rd.path]))
+        intro obs res; exact local_finish isInput outs res
   | irmsdFast c =>
     cases c <;> simp only [prog, zoneArg, hz] <;>
     · apply local_loadPdb isInput outs _ _ ha.ref
       intro rc
-      apply local_checked isInput outs W _ _ _ _ _ (hrd _ (by simp [Rd.path])) (hrd _ (by simp [Rd.path]))
-      intro obs res; exact local_finish isInput outs res
+      split
+      · trivial
+      · apply local_checked isInput outs W _ _ _ _ _ (hrd _ (by simp [Rd.path])) (hrd _ (by simp [Rd.path]))
+        intro obs res; exact local_finish isInput outs res
   | lrmsdSql =>
     simp only [prog]
     apply local_checked isInput outs W _ _ _ _ _ (hrd _ (by simp [Rd.path])) (hrd _ (by simp [Rd.path]))
@@ -262,7 +266,9 @@ theorem exec_withZone (W : Work L Z R) (zr : Routine) (ref f tmp : P) (k : Z →
         | .ok z => (k z).exec fs
         | .error e => (fs, .error e))
       | none => (match fs ref with
-        | some rc => (k (W.compute zr rc)).exec ((fs.set tmp none).set f (some (W.render (W.compute zr rc))))
+        | some rc => (match W.computeErr zr rc with
+          | some e => (fs, .error e)
+          | none => (k (W.compute zr rc)).exec ((fs.set tmp none).set f (some (W.render (W.compute zr rc)))))
         | none => (fs, .error .fileNotFound)) := by
   unfold withZone
   cases hf : fs f with
@@ -275,12 +281,18 @@ theorem exec_withZone (W : Work L Z R) (zr : Routine) (ref f tmp : P) (k : Z →
     rw [exec_loadPdb]
     cases hr : fs ref with
     | none => rfl
-    | some rc => simp only []; rw [exec_writeZone _ _ _ _ _ htmp]
+    | some rc =>
+      simp only []
+      cases W.computeErr zr rc with
+      | some e => rfl
+      | none => simp only []; rw [exec_writeZone _ _ _ _ _ htmp]
 
 theorem rg_withZone (W : Work L Z R) (zr : Routine) (hrt : ∀ rc, W.parse (W.render (W.compute zr rc)) = .ok (W.compute zr rc))
     (w : World P L) (l : Loc P R) (ref : P) (k : Z → Prog P L R)
     (hs : Sep w l) (href : w.isInput ref)
-    (hpub : w.pub = (w.fs₀ ref).map (fun rc => W.render (W.compute zr rc)))
+    (hpub : w.pub = (w.fs₀ ref).bind (fun rc => match W.computeErr zr rc with
+      | some _ => none
+      | none => some (W.render (W.compute zr rc))))
     (htmp : w.fs₀ l.tmp = none)
     (hk : ∀ z, LocalProg w.isInput l.outs (k z))
     (hsolo : l.solo = ((withZone W zr ref w.cache l.tmp k).exec w.fs₀).2) :
@@ -311,10 +323,14 @@ theorem rg_withZone (W : Work L Z R) (zr : Routine) (hrt : ∀ rc, W.parse (W.re
       cases hr : w.fs₀ ref with
       | none => simp [hr] at hp
       | some rc =>
-        simp only [hr, Option.map_some, Option.some.injEq] at hp hsolo
-        subst hp
-        rw [hrt]
-        exact rg_local w l hs.out_not_input _ (hk _) _ (hafter _) hsolo none seen
+        -- somebody published: the zone computation on this reference does not fail
+        cases hce : W.computeErr zr rc with
+        | some e => simp [hr, hce] at hp
+        | none =>
+          simp only [hr, hce, Option.bind_some, Option.some.injEq] at hp hsolo
+          subst hp
+          rw [hrt]
+          exact rg_local w l hs.out_not_input _ (hk _) _ (hafter _) hsolo none seen
   unfold withZone
   simp only [RG]
   refine Or.inr ⟨by first | rfl | trivial, ?_⟩
@@ -360,10 +376,16 @@ theorem rg_withZone (W : Work L Z R) (zr : Routine) (hrt : ∀ rc, W.parse (W.re
       simp only [hr] at hsolo
       simp only [hr, Option.isSome, if_true, RG]
       refine Or.inl ⟨href, Or.inl ⟨href, ?_⟩⟩
+      cases hce : W.computeErr zr rc with
+      | some e =>
+        simp only [hce] at hsolo ⊢
+        simpa [RG] using hsolo
+      | none =>
+      simp only [hce] at hsolo ⊢
       unfold writeZone
       simp only [RG]
       refine ⟨by first | rfl | trivial, by first | rfl | trivial, Or.inl ⟨by first | rfl | trivial, [], rfl, ?_⟩⟩
-      refine ⟨by first | rfl | trivial, by first | rfl | trivial, by simp, by simp [hpub, hr], hc0, ?_⟩
+      refine ⟨by first | rfl | trivial, by first | rfl | trivial, by simp, by simp [hpub, hr, hce], hc0, ?_⟩
       exact rg_local w l hs.out_not_input _ (hk _) _ (hafter _) hsolo none true
 
 end Proofs.Effects
